@@ -742,13 +742,15 @@ where
         });
         let viol = match result {
             Ok(()) => None,
-            Err(TestError::Fail(_, minimal)) => {
+            Err(TestError::Fail(reason, minimal)) => {
                 let mut strict_env_fail = eval_case(self.name, env, &minimal, &self.body, None, 0);
                 if strict_env_fail.is_ok() {
-                    // flaky or state-dependent: report with what we know
+                    // flaky or state-dependent (e.g. the code under test draws its own randomness:
+                    // message ids, initial SRTTs): report with what we know, incl. the signature
+                    // of the failure that was seen during the run
                     strict_env_fail = Err(Fail::new(
                         "nondeterministic",
-                        "minimal case failed during the run but passed when re-evaluated",
+                        format!("minimal case failed during the run (signature then: {reason}) but passed when re-evaluated"),
                     ));
                 }
                 Some(ViolationRec {
